@@ -15,6 +15,9 @@ type SetModel struct {
 // TypeString renders a type form the way go/types does with a nil qualifier.
 func (m *Module) TypeString(r Ref) string {
 	t := m.Types[r.Idx]
+	if t.Kind == "uslice" {
+		return "[]" + m.TypeString(Ref{Idx: t.Elem})
+	}
 	s := m.PkgImportPath(t.Pkg) + "." + t.Name
 	if r.Ptr {
 		return "*" + s
@@ -71,6 +74,13 @@ func (m *Module) ShowModel() map[string]SetModel {
 			continue // not an initial package of `./...`
 		}
 		sm := SetModel{Groups: map[string][]string{}}
+		name := m.setID(s)
+		if s.AliasOf > 0 {
+			// another name for the target: show lists the target itself as included, then everything the target includes
+			tgt := m.Sets[s.AliasOf-1]
+			sm.Imports = append(sm.Imports, m.setID(tgt))
+			s = tgt
+		}
 		// named sets reachable
 		var walk func(id int)
 		seen := map[int]bool{}
@@ -131,7 +141,7 @@ func (m *Module) ShowModel() map[string]SetModel {
 		for k := range sm.Groups {
 			sort.Strings(sm.Groups[k])
 		}
-		out[m.setID(s)] = sm
+		out[name] = sm
 	}
 	return out
 }
